@@ -409,6 +409,200 @@ example : ((sys (fun n => if n = 2 then 1 else 0)).run reuseTrace).map (fun s =>
     = some [.push 1 11, .flush [(1, 11)], .push 1 12, .push 2 21, .flush [(2, 21), (1, 12)]] := by
   decide
 
+
+/-! ### mpmc_stack_push_timeout (bounded number of CAS attempts)
+
+  The model accepts histories that mix `mpmc_stack_push` and `mpmc_stack_push_timeout` in any
+  way; every theorem above (`stack_is_reachable`, `lin_legal`, `flush_all_once`,
+  `exactly_once`, …) quantifies over all of them.  What is specific to the bounded push:
+
+  (a) an operation that reports MPMC_RETRY left the container alone and still owns its node;
+  (b) an operation that reports MPMC_SUCCESS made exactly the step `mpmc_stack_push` makes;
+  (c) an operation called with `tries = b ≥ 1` performs at most `b` CAS attempts (exactly `b`,
+      all failed, if it gives up).
+  Client obligation in the model: `tries ≥ 1` (`tries` is a size_t that is decremented before
+  it is tested, so `tries = 0` wraps around to SIZE_MAX tries). -/
+
+/-- (a), step form: only a successful CAS and the exchange change `head`, the abstract stack,
+    the ownership or the linearisation; every other step of every thread — in particular every
+    step of a push_timeout that ends up giving up — leaves all four alone -/
+theorem only_publishing_steps_change_container (own0 : Nat → Nat) (es : List Ev) (s s' : St) (e : Ev)
+    (_hrun : (sys own0).run es = some s) (hstep : step s e = some s') (hq : publishes e = false) :
+    s'.head = s.head ∧ s'.stk = s.stk ∧ s'.owner = s.owner ∧ s'.lin = s.lin :=
+  step_frame hstep hq
+
+/-- (a), the failed CAS itself: it found a head different from the expected one and changes no
+    cell and no container ghost; the thread retries with the head it found while tries remain
+    and gives up after the last one -/
+theorem pushto_failed_cas_changes_nothing (own0 : Nat → Nat) (es : List Ev) (s s' : St)
+    (t n h b found exp des : Nat)
+    (_hrun : (sys own0).run es = some s) (hpc : s.pc t = .toWroteNext n h b)
+    (hcas : step s (.cas t found exp des false) = some s') :
+    found = s.head ∧ found ≠ h ∧ s'.head = s.head ∧ s'.next = s.next ∧ s'.data = s.data ∧
+      s'.owner = s.owner ∧ s'.stk = s.stk ∧ s'.res = s.res ∧ s'.lin = s.lin ∧
+      s'.pc t = (if b - 1 = 0 then .toGaveUp n else .toGotHead n found (b - 1)) :=
+  pushto_cas_failure hpc hcas
+
+/-- (a), at the return: `ret pushto 0` is only possible after giving up; the node is non-NULL,
+    still owned by the caller and not in the container, and the return changes nothing -/
+theorem pushto_failed_node_still_owned (own0 : Nat → Nat) (es : List Ev) (s s' : St) (t : Nat)
+    (hrun : (sys own0).run es = some s) (hret : step s (.retPushTo t 0) = some s') :
+    ∃ n, s.pc t = .toGaveUp n ∧ n ≠ 0 ∧ s'.owner n = some t ∧ n ∉ s'.stk ∧
+      s'.head = s.head ∧ s'.next = s.next ∧ s'.data = s.data ∧ s'.owner = s.owner ∧
+      s'.stk = s.stk ∧ s'.lin = s.lin ∧ s'.pc t = .idle := by
+  have hI := inv_of_run hrun
+  simp only [step] at hret
+  split at hret <;> simp at hret
+  rename_i n hpc
+  subst hret
+  obtain ⟨h0, ho, hn⟩ := gaveUp_unpublished hI hpc
+  exact ⟨n, hpc, h0, ho, hn, rfl, rfl, rfl, rfl, rfl, rfl, by simp⟩
+
+/-- (a) and (c), operation form: in a history in which thread `t`'s push_timeout returns 0,
+    NONE of `t`'s events since the call changed the container (no successful CAS, no
+    exchange), and `t` made exactly as many CAS attempts as the `tries` it was called with -/
+theorem pushto_failed_never_published (own0 : Nat → Nat) (es : List Ev) (s' : St) (t : Nat)
+    (hrun : (sys own0).run (es ++ [.retPushTo t 0]) = some s') :
+    (∀ e ∈ curOp t es, tidOf e = t → publishes e = false) ∧
+      ∃ v b, callOf t es = some (.callPushTo t v b) ∧ 1 ≤ b ∧ casCount t (curOp t es) = b := by
+  simp only [Sys.run, Sys.runFrom_append] at hrun
+  cases hs : (sys own0).runFrom (sys own0).init es with
+  | none => simp [hs] at hrun
+  | some s =>
+    have hrun0 : (sys own0).run es = some s := hs
+    simp only [hs, Option.bind_some, Sys.runFrom] at hrun
+    have hret : step s (.retPushTo t 0) = some s' := by
+      cases h1 : (sys own0).step s (.retPushTo t 0) with
+      | none => simp [h1] at hrun
+      | some s1 => simp [h1] at hrun; subst hrun; exact h1
+    obtain ⟨n, hpc, _⟩ := pushto_failed_node_still_owned own0 es s s' t hrun0 hret
+    have hO := opInv_of_run hrun0
+    have hB := bud_of_run hrun0 t
+    rw [hpc] at hB; simp only [BudOk] at hB
+    refine ⟨hO.quiet t (by rw [hpc]; rfl), ?_⟩
+    obtain ⟨v, hv⟩ := hO.call t (by rw [hpc]; rfl)
+    have hc := hO.count t (by rw [hpc]; rfl)
+    exact ⟨v, s.tries0 t, hv, callOf_budget_pos hrun0 hv, by rw [← hc, hB]⟩
+
+/-- (b) a successful CAS of push_timeout is ABA-safe in exactly the sense of `push_is_aba_safe` -/
+theorem pushto_is_aba_safe (own0 : Nat → Nat) (es : List Ev) (s s' : St) (t n h b found exp des : Nat)
+    (hrun : (sys own0).run es = some s) (hpc : s.pc t = .toWroteNext n h b)
+    (hcas : step s (.cas t found exp des true) = some s') :
+    s.head = h ∧ s.next n = h ∧ s'.stk = n :: s.stk ∧ s'.head = n ∧ s.owner n = some t ∧
+      s'.owner n = none ∧ s'.lin = s.lin ++ [.push n (s.data n)] ∧ s'.pc t = .toDone :=
+  pushto_cas_success (inv_of_run hrun) hpc hcas
+
+/-- (b) … and it IS the step of `mpmc_stack_push`: with the thread put at the corresponding pc
+    of the unbounded push, the same CAS event is accepted and produces the same cells and the
+    same container ghosts (so a successful push_timeout is an ordinary push for every clause) -/
+theorem pushto_success_is_ordinary_push (own0 : Nat → Nat) (es : List Ev) (s s' : St)
+    (t n h b found exp des : Nat)
+    (_hrun : (sys own0).run es = some s) (hpc : s.pc t = .toWroteNext n h b)
+    (hcas : step s (.cas t found exp des true) = some s') :
+    ∃ s0', step { s with pc := upd s.pc t (.pushWroteNext n h) } (.cas t found exp des true) = some s0' ∧
+      s'.head = s0'.head ∧ s'.next = s0'.next ∧ s'.data = s0'.data ∧ s'.owner = s0'.owner ∧
+      s'.stk = s0'.stk ∧ s'.res = s0'.res ∧ s'.lin = s0'.lin :=
+  pushto_success_is_push hpc hcas
+
+/-- (b) `ret pushto 1` is only possible after the successful CAS -/
+theorem pushto_success_only_after_cas (own0 : Nat → Nat) (es : List Ev) (s s' : St) (t : Nat)
+    (_hrun : (sys own0).run es = some s) (hret : step s (.retPushTo t 1) = some s') :
+    s.pc t = .toDone := by
+  simp only [step] at hret
+  split at hret <;> simp at hret
+  assumption
+
+/-- (c) budget: while thread `t` is inside a push_timeout called with `tries = b`, it has made
+    at most `b` CAS attempts (the CAS events of `t` since its call note); once it gives up it
+    has made exactly `b` -/
+theorem pushto_attempts_le_budget (own0 : Nat → Nat) (es : List Ev) (s : St) (t : Nat)
+    (hrun : (sys own0).run es = some s) (hin : inTo (s.pc t) = true) :
+    ∃ v b, callOf t es = some (.callPushTo t v b) ∧ 1 ≤ b ∧ casCount t (curOp t es) ≤ b ∧
+      (∀ n, s.pc t = .toGaveUp n → casCount t (curOp t es) = b) := by
+  have hO := opInv_of_run hrun
+  obtain ⟨v, hv⟩ := hO.call t hin
+  have hc := hO.count t hin
+  have hB := bud_of_run hrun t
+  refine ⟨v, s.tries0 t, hv, callOf_budget_pos hrun hv, by rw [← hc]; exact hB.le, ?_⟩
+  intro n hpc
+  rw [hpc] at hB; simp only [BudOk] at hB
+  rw [← hc, hB]
+
+/-- (c) ghost form, every reachable state, every thread -/
+theorem pushto_ghost_attempts_le_budget (own0 : Nat → Nat) (es : List Ev) (s : St) (t : Nat)
+    (hrun : (sys own0).run es = some s) : s.att t ≤ s.tries0 t :=
+  (bud_of_run hrun t).le
+
+/-! ### non-vacuity: a push_timeout with budget 1 fails because another push intervenes between
+    its load and its CAS; the SAME node is then pushed again (new value, budget 2) and flushed
+
+  Thread 0: push_timeout(n1, 11, tries = 1) loads head = NULL, writes n1->next = NULL, stalls.
+  Thread 1 pushes n2 (21).  Thread 0's CAS finds n2, not NULL: fails, budget used up, returns
+  0 — the container is [n2], n1 is still thread 0's.  Thread 0 calls push_timeout(n1, 12, 2):
+  succeeds on the first try.  Thread 1's fifo flush hands out 21 then 12; 11 never appears. -/
+
+def timeoutTrace : List Ev := [
+  .callPushTo 0 11 1, .wrData 0 1 11, .ldHead 0 0, .wrNext 0 1 0,
+  .callPush 1 21, .wrData 1 2 21, .ldHead 1 0, .wrNext 1 2 0, .cas 1 0 0 2 true, .retPush 1,
+  .cas 0 2 0 1 false, .retPushTo 0 0]
+
+def timeoutTrace2 : List Ev := timeoutTrace ++ [
+  .callPushTo 0 12 2, .wrData 0 1 12, .ldHead 0 2, .wrNext 0 1 2, .cas 0 2 2 1 true, .retPushTo 0 1,
+  .callFlush 1 true, .xchg 1 1, .rdNext 1 1 2, .wrNext 1 1 0, .rdNext 1 2 0, .wrNext 1 2 1,
+  .rdData 1 2 21, .item 1 21, .rdNext 1 2 1, .rdData 1 1 12, .item 1 12, .rdNext 1 1 0, .retFlush 1 2]
+
+/-- after the failed push_timeout: the container holds only n2, n1 is still thread 0's, the
+    linearisation has no trace of value 11, one attempt was made out of a budget of one -/
+example : ((sys (fun n => if n = 2 then 1 else 0)).run timeoutTrace).map
+      (fun s => (s.head, s.stk, s.owner 1, s.owner 2, s.att 0, s.tries0 0))
+    = some (2, [2], some 0, none, 1, 1) := by decide
+example : ((sys (fun n => if n = 2 then 1 else 0)).run timeoutTrace).map (fun s => (s.lin, s.pc 0))
+    = some ([.push 2 21], .idle) := by decide
+
+/-- the hypotheses of `pushto_failed_never_published` are satisfiable … -/
+example : (curOp 0 (timeoutTrace.dropLast), callOf 0 (timeoutTrace.dropLast),
+           casCount 0 (curOp 0 timeoutTrace.dropLast))
+    = ([.wrData 0 1 11, .ldHead 0 0, .wrNext 0 1 0,
+        .callPush 1 21, .wrData 1 2 21, .ldHead 1 0, .wrNext 1 2 0, .cas 1 0 0 2 true, .retPush 1,
+        .cas 0 2 0 1 false], some (.callPushTo 0 11 1), 1) := by decide
+
+/-- … and the node is re-pushed and flushed in push order -/
+example : ((sys (fun n => if n = 2 then 1 else 0)).run timeoutTrace2).map
+      (fun s => (s.head, s.stk, s.res 1, s.owner 1, s.owner 2))
+    = some (0, [], [2, 1], some 1, some 1) := by decide
+example : ((sys (fun n => if n = 2 then 1 else 0)).run timeoutTrace2).map (fun s => s.lin)
+    = some [.push 2 21, .push 1 12, .flush [(1, 12), (2, 21)]] := by decide
+
+/-- budget 2: the first CAS fails (another push intervened), the retry uses the refreshed head
+    and succeeds; two attempts out of two -/
+def retryTrace : List Ev := [
+  .callPushTo 0 11 2, .wrData 0 1 11, .ldHead 0 0, .wrNext 0 1 0,
+  .callPush 1 21, .wrData 1 2 21, .ldHead 1 0, .wrNext 1 2 0, .cas 1 0 0 2 true, .retPush 1,
+  .cas 0 2 0 1 false, .wrNext 0 1 2, .cas 0 2 2 1 true, .retPushTo 0 1]
+
+example : ((sys (fun n => if n = 2 then 1 else 0)).run retryTrace).map
+      (fun s => (s.head, s.stk, s.next 1, s.owner 1, s.att 0, s.tries0 0))
+    = some (1, [1, 2], 2, none, 2, 2) := by decide
+example : ((sys (fun n => if n = 2 then 1 else 0)).run retryTrace).map (fun s => s.lin)
+    = some [.push 2 21, .push 1 11] := by decide
+
+/-- the model rejects a success report after giving up, a failure report after the successful
+    CAS, a third attempt on a budget of … one, and a call with `tries = 0` -/
+example : ((sys (fun n => if n = 2 then 1 else 0)).run (timeoutTrace.dropLast ++ [.retPushTo 0 1])) = none := by
+  decide
+example : ((sys (fun n => if n = 2 then 1 else 0)).run (timeoutTrace.dropLast ++ [.wrNext 0 1 2])) = none := by
+  decide
+example : ((sys (fun _ => 0)).run [.callPushTo 0 11 1, .wrData 0 1 11, .ldHead 0 0, .wrNext 0 1 0,
+      .cas 0 0 0 1 true, .retPushTo 0 0]) = none := by decide
+example : ((sys (fun _ => 0)).run [.callPushTo 0 11 0]) = none := by decide
+
+/-- the API-level oracle of `stackMonitor`: a value whose push_timeout gave up must not be
+    handed out -/
+example : gaveUpBad [] [(true, [11])] [11]
+    = some "invented: a flush handed out 11 although its push_timeout gave up (returned MPMC_RETRY)" := by
+  decide
+example : gaveUpBad [] [(true, [21, 12])] [11] = none := by decide
+
 end Stack
 
 /-! ################################################################################
